@@ -55,6 +55,9 @@ func (c *Ctx) standalone(as []*Term, wantModel bool) (string, []string) {
 }
 
 var fallbackSolvers = [][]string{
+	// one-shot z3-new first: the tactic-based solver decides div/mod-by-constant and mixed arithmetic queries in
+	// milliseconds that the incremental (push/pop) core of the same binary does not finish
+	{"z3-new", "-smt2"},
 	{"z3", "-smt2"},
 	{"cvc5", "--lang=smt2", "--produce-models", "--nl-ext-tplanes"},
 }
@@ -73,7 +76,7 @@ func (s *Solver) fallback(as []*Term, timeoutMs int, wantModel bool) (string, ma
 	gil.Unlock()
 	defer gil.Lock()
 	for _, sv := range fallbackSolvers {
-		if (s.kind == "z3" && sv[0] == "z3") || (s.kind == "cvc5" && sv[0] == "cvc5") {
+		if s.kind == "cvc5" && sv[0] == "cvc5" {
 			continue
 		}
 		args := append([]string{}, sv[1:]...)
